@@ -759,6 +759,12 @@ def signal_child_rule(ctx, rule="R06.6"):
         v = thir.expr_value(thir.root(c))
         if v[0] == "call" and v[1].endswith("Signal::to_nix") and v[2] and v[2][0][0] == "v" and v[2][0][2] == "Terminate":
             fb = True
+    # the same fallback written as a match arm / if-let instead of an or_else closure: a to_nix() call on the literal Signal::Terminate
+    for c_, n_ in calls:
+        if strip_generics(c_).endswith("Signal::to_nix") and n_["a"]:
+            a0 = thir.peel(n_["a"][0])
+            if isinstance(a0, dict) and a0.get("k") == "adt" and a0.get("v") == "Terminate" and not a0.get("f"):
+                fb = True
     sig = [n for c, n in calls if strip_generics(c).endswith("TokioChildWrapper::signal") or strip_generics(c).endswith("TestChild::signal")]
     ok3 = len(sig) == 1 and pathx.desc(sig[0]["a"][0]).lstrip("^").startswith("child") and pathx.desc(sig[0]["a"][1]) == "sig"
     ctx.require(ok1 and fb and ok3, rule, "signal-mapping",
